@@ -514,24 +514,13 @@ theorem goodP_finishFn : GoodP c (fun fn => GbOK c fn.insts) finishFn := by
   · exact Sat.cpanic hs.tinv
   · exact goodP_finishTail _ _ s hs
 
-/-- `compileFuncLit`: `Fork(false)` (a function scope of the same root), a fresh stream, the body,
-    `Bytecode()`: the compiled function has acceptable GETBUILTIN operands -/
+/-- `compileFuncLit`: the forked compiler (a fresh stream), `Fork(false)` (a function scope of the same
+    root), `SetParams`, the body, `Bytecode()`: the compiled function has acceptable GETBUILTIN operands -/
 theorem goodP_withFn (pos : Pos) (variadic : Bool) (params : List String) {body : CM Unit} (hb : Good c body) :
     GoodP c (fun r => GbOK c r.1.insts) (withFn pos variadic params body) := by
   intro s hs
   obtain ⟨t, r, htr⟩ := exists_cons_of_ne hs.ne
   unfold withFn
-  apply Sat.bind_of_run (runCM_forkTable false htr)
-  generalize hs1 : ({ s with tables := _ :: s.tables } : CState) = s1
-  have hi1 : Inv c s1 := by
-    subst hs1
-    exact hs.of_tables (hs.tinv.cons storeOK_nil) rfl rfl rfl
-  have ht1 : s1.tables.length = s.tables.length + 1 := by subst hs1; simp
-  have hin1 : s1.insts = s.insts := by subst hs1; rfl
-  have hl1 : s1.loops = s.loops := by subst hs1; rfl
-  apply Sat.bind
-  apply Sat.mono (good_setParams pos params s1 hi1)
-  intro _ s2 ⟨hi2, hr2, _⟩
   unfold enterFn
   apply Sat.bind
   apply Sat.bind
@@ -539,13 +528,22 @@ theorem goodP_withFn (pos : Pos) (variadic : Bool) (params : List String) {body 
   apply Sat.bind
   apply Sat.set
   apply Sat.pure
-  generalize hs3 : ({ s2 with insts := #[], sourceMap := [], loops := [], tryCatchIndex := -1, iotaVal := -1, variadic := variadic } : CState) = s3
+  generalize hs3 : ({ s with insts := #[], sourceMap := [], loops := [], tryCatchIndex := -1, iotaVal := -1, variadic := variadic } : CState) = s3
   have hi3 : Inv c s3 := by
     subst hs3
-    exact ⟨hi2.ne, hi2.bs, hi2.tabs, hi2.dis, Walk.refl 0, fun l hl => by simp at hl, hi2.consts, gbOK_empty⟩
-  have ht3 : s3.tables = s2.tables := by subst hs3; rfl
+    exact ⟨hs.ne, hs.bs, hs.tabs, hs.dis, Walk.refl 0, fun l hl => by simp at hl, hs.consts, gbOK_empty⟩
+  have ht3 : s3.tables = s.tables := by subst hs3; rfl
+  apply Sat.bind_of_run (runCM_forkTable false (ht3.trans htr))
+  generalize hs1 : ({ s3 with tables := _ :: s3.tables } : CState) = s1
+  have hi1 : Inv c s1 := by
+    subst hs1
+    exact hi3.of_tables (hi3.tinv.cons storeOK_nil) rfl rfl rfl
+  have ht1 : s1.tables.length = s.tables.length + 1 := by subst hs1; simp [ht3]
   apply Sat.bind
-  apply Sat.mono (hb s3 hi3)
+  apply Sat.mono (good_setParams pos params s1 hi1)
+  intro _ s2 ⟨hi2, hr2, _⟩
+  apply Sat.bind
+  apply Sat.mono (hb s2 hi2)
   intro _ s4 ⟨hi4, hr4, _⟩
   apply Sat.bind
   apply Sat.mono (goodP_finishFn s4 hi4)
@@ -567,14 +565,13 @@ theorem goodP_withFn (pos : Pos) (variadic : Bool) (params : List String) {body 
     have h4 := hr4.tlen
     have h2 := hr2.tlen
     rw [htr5] at h5
-    rw [ht3] at h4
     simp at h5
     omega
   have hti := hi5.tinv
   rw [htr5] at hti
   have hti' := hti.tail (ne_nil_of_length_eq hlen hs.ne)
-  exact ⟨⟨hti'.ne, hi2.bs, hti'.ok, hti'.dis, hi2.walk, hi2.loops, hi5.consts, hi2.gb⟩,
-    hr2.transfer hin1 hl1 rfl rfl hlen, hfn⟩
+  exact ⟨⟨hti'.ne, hs.bs, hti'.ok, hti'.dis, hs.walk, hs.loops, hi5.consts, hs.gb⟩,
+    Rel.of_same hlen rfl rfl, hfn⟩
 
 /-- **destructuring**: the other GETBUILTIN, always the private `:makeArray` -/
 theorem good_compileAssign (pos : Pos) (lhs : List Expr) (nrhs : Nat) {rhsAct lhs0Act defAssign0 : CM Unit}
